@@ -358,8 +358,20 @@ Definition core_spec (g : graph) : list (N * N) :=
   map (fun v => (v, fold_left (fun best kc => if mem v (snd kc) then N.max best (fst kc) else best) cores 0))
       (sort_N (node_ids g)).
 Definition pairs_eqb := list_eqb (pair_eqb N.eqb N.eqb).
-Definition kcore_oracle (g : graph) (r : list (N * N) * N) : bool :=
-  pairs_eqb (fst r) (core_spec g) && N.eqb (snd r) (fold_left (fun m p => N.max m (snd p)) (core_spec g) 0).
+(* k-core outputs: core numbers, degeneracy (kcore_decomposition and degeneracy()), whether the
+   `cores` grouping matches the core numbers, and for every k = 0..|V|: kcore_subgraph(k), shell(k) *)
+Definition kcore_out := (list (N * N) * N * N * bool * list (N * list N * list N))%type.
+Definition kcore_oracle (g : graph) (r : kcore_out) : bool :=
+  let '(cs, dg, dg2, grouped, perk) := r in
+  let spec := core_spec g in
+  let dspec := fold_left (fun m p => N.max m (snd p)) spec 0 in
+  pairs_eqb cs spec && N.eqb dg dspec && N.eqb dg2 dspec && grouped
+  && lN_eqb (map (fun x => fst (fst x)) perk) (N_seq (N.succ (N.of_nat (length (gnodes g)))))
+  && forallb (fun x => let '(k, sub, shell) := x in
+                       (* the k-core by its definition: what is left after repeatedly deleting nodes of degree < k *)
+                       lN_eqb sub (sort_N (kcore_set g k))
+                       && lN_eqb shell (sort_N (filter (fun v => negb (mem v (kcore_set g (k + 1)))) (kcore_set g k))))
+             perk.
 
 (* triangles of the underlying simple graph *)
 Definition tri_list (g : graph) : list (N * N * N) :=
@@ -428,7 +440,7 @@ Definition bicon_blocks_ok (g : graph) (r : bicon_out) : bool :=
 (* algo case: graph and the canonicalised outputs of the six algorithms (None = error/panic) *)
 Definition algo_case :=
   (graph * option (list (list N) * bool) * option (list (list N) * bool) * option mst_out
-   * option (list (N * N) * N) * option (N * list (N * N)) * option bicon_out)%type.
+   * option kcore_out * option (N * list (N * N)) * option bicon_out)%type.
 Definition check_algo (c : algo_case) : N :=
   let '(g, scc, wcc, mst, kc, tri, bic) := c in
   vall [
